@@ -1590,6 +1590,8 @@ def balance_stoichiometry(
                 raise ValueError("The system was under-determined")
         if not all(residual == 0 for residual in A * sol):
             raise ValueError("Failed to balance reaction")
+    if any(x.is_number and not x > 0 for x in sol):
+        raise ValueError("No solution with only positive coefficients")
 
     def _x(k):
         coeff = sol[subst_keys.index(k)]
